@@ -78,8 +78,9 @@ Reject(act, form, names) ==
     /\ Log(act, form, names, pval, FALSE)
 
 RejectWrongLength(form, len) ==
-    /\ form \in {"list", "tuple", "array", "rowarray", "pairs-list"}
+    /\ form \in {"list", "tuple", "array", "rowarray", "pairs-list", "table"}
     /\ len \in {NPar - 1, NPar + 1} /\ len >= 1
+    /\ (form = "table" => len = NPar + 1)      \* "table": an array with one ROW per parameter but several columns
     /\ Reject("RejectWrongLength", form, [j \in 1..len |-> IF j <= NPar THEN j ELSE Zz])
 RejectUnknownPairs(perm, j) ==          \* the j-th pair names a parameter the model does not have
     /\ j \in Names
@@ -99,7 +100,7 @@ Next ==
     \/ \E f \in {"pairs-list", "pairs-tuple"} : \E p \in Perms : Pairs(f, p)
     \/ \E f \in {"dict-str", "dict-sym"} : \E s \in Subsets : Dict(f, s)
     \/ Scalar
-    \/ \E f \in {"list", "tuple", "array", "rowarray", "pairs-list"} : \E l \in {NPar - 1, NPar + 1} : RejectWrongLength(f, l)
+    \/ \E f \in {"list", "tuple", "array", "rowarray", "pairs-list", "table"} : \E l \in {NPar - 1, NPar + 1} : RejectWrongLength(f, l)
     \/ \E p \in Perms : \E j \in Names : (p = [k \in Names |-> k] /\ RejectUnknownPairs(p, j))
     \/ \E f \in {"dict-str", "dict-sym"} : \E s \in SUBSET Names : RejectUnknownDict(f, s)
     \/ RejectTooMany
